@@ -31,6 +31,7 @@ type Req struct {
 	Subs   []SubSpec `json:"subs,omitempty"`
 	Fs     []string  `json:"fs,omitempty"`
 	H      int       `json:"h,omitempty"`
+	Swap   int       `json:"swap,omitempty"` // handle: this handler, when it receives its first message, registers handler Swap from inside the callback
 	At     string    `json:"at"`
 	Retain bool      `json:"retain,omitempty"`
 	PID    int       `json:"pid,omitempty"`  // pub: packet identifier the application put on the message (0: none)
@@ -284,7 +285,12 @@ func runRetry(sc *RetryScenario) *RetryResult {
 	}
 	defer func() {
 		close(hammerStop)
-		hammerWG.Wait()
+		hd := make(chan struct{})
+		go func() { hammerWG.Wait(); close(hd) }()
+		select {
+		case <-hd:
+		case <-time.After(3 * time.Second): // a hammer goroutine wedged inside the library: recorded by the scenario itself
+		}
 	}()
 	connCtx, connCancel := context.WithCancel(ctx)
 	defer connCancel()
@@ -317,6 +323,7 @@ func runRetry(sc *RetryScenario) *RetryResult {
 	}
 
 	nreq := 0
+	stuckCall := ""
 	reused := &mqtt.Message{}
 	disconnected := false
 	var discWG sync.WaitGroup
@@ -358,12 +365,23 @@ func runRetry(sc *RetryScenario) *RetryResult {
 			err := cli.Unsubscribe(ctx, r.Fs...)
 			rec.Emit(netsim.Event{"e": "Submit", "i": nreq, "k": "unsub", "q": 0, "fs": append([]string{}, r.Fs...), "qs": []int{}, "res": netsim.ErrClass(err), "cseq": cseq})
 		case "handle":
-			h := r.H
-			rec.Emit(netsim.Event{"e": "Handle", "h": h, "phase": "call"})
-			cli.Handle(mqtt.HandlerFunc(func(m *mqtt.Message) {
-				rec.Emit(netsim.Event{"e": "Handled", "h": h, "tag": netsim.TagOf(m.Payload), "qos": int(m.QoS), "dup": m.Dup})
-			}))
-			rec.Emit(netsim.Event{"e": "Handle", "h": h, "phase": "ret"})
+			var mk func(h, swap int) mqtt.Handler
+			mk = func(h, swap int) mqtt.Handler {
+				var once sync.Once
+				return mqtt.HandlerFunc(func(m *mqtt.Message) {
+					rec.Emit(netsim.Event{"e": "Handled", "h": h, "tag": netsim.TagOf(m.Payload), "qos": int(m.QoS), "dup": m.Dup})
+					if swap > 0 {
+						once.Do(func() {
+							rec.Emit(netsim.Event{"e": "Handle", "h": swap, "phase": "call"})
+							cli.Handle(mk(swap, 0))
+							rec.Emit(netsim.Event{"e": "Handle", "h": swap, "phase": "ret"})
+						})
+					}
+				})
+			}
+			rec.Emit(netsim.Event{"e": "Handle", "h": r.H, "phase": "call"})
+			cli.Handle(mk(r.H, r.Swap))
+			rec.Emit(netsim.Event{"e": "Handle", "h": r.H, "phase": "ret"})
 		case "release":
 			if g, ok := gates[r.Gate]; ok && !releasedNames[r.Gate] {
 				releasedNames[r.Gate] = true
@@ -497,7 +515,22 @@ func runRetry(sc *RetryScenario) *RetryResult {
 				unreached = append(unreached, fmt.Sprintf("%d:%s", i, at))
 			}
 		}
-		submit(r)
+		// a library call that never returns (a lock its own goroutine holds, ...) must show up in the trace of this
+		// scenario, not as a hung driver: the call is given until the deadline, then the run is closed without it
+		subDone := make(chan struct{})
+		go func() {
+			defer close(subDone)
+			submit(r)
+		}()
+		select {
+		case <-subDone:
+		case <-time.After(time.Until(deadline) + 300*time.Millisecond):
+			stuckCall = r.K
+			rec.Emit(netsim.Event{"e": "Stuck", "k": r.K})
+		}
+		if stuckCall != "" {
+			break
+		}
 	}
 	if lastGate != "" {
 		releaseGate(lastGate)
@@ -543,6 +576,9 @@ func runRetry(sc *RetryScenario) *RetryResult {
 		sampleClient(rec, cli, w)
 	}
 	info["statsHung"] = statsHung
+	if stuckCall != "" {
+		info["stuckCall"] = stuckCall
+	}
 	info["unreached"] = unreached
 	info["unusedRules"] = w.UnusedRules()
 	info["conns"] = w.NumConns()
@@ -553,14 +589,26 @@ func runRetry(sc *RetryScenario) *RetryResult {
 	w.ReleaseAllGates()
 	if disconnected {
 		w.ReleaseAllGates()
-		discWG.Wait()
+		dd := make(chan struct{})
+		go func() { discWG.Wait(); close(dd) }()
+		select {
+		case <-dd:
+		case <-time.After(4 * time.Second):
+			info["disconnectStuck"] = true
+		}
 		time.Sleep(ms(sc.Opts.QuietMs, 30))
 	}
 	if !sc.Opts.NoDisconnect && !disconnected {
 		dctx, dcancel := context.WithTimeout(context.Background(), 2*time.Second)
 		rec.Emit(netsim.Event{"e": "Call", "c": 1, "kind": "Disconnect"})
-		derr := safeDisconnect(cli, dctx)
-		rec.Emit(netsim.Event{"e": "Ret", "c": 1, "kind": "Disconnect", "res": derr})
+		dch := make(chan string, 1)
+		go func() { dch <- safeDisconnect(cli, dctx) }()
+		select {
+		case derr := <-dch:
+			rec.Emit(netsim.Event{"e": "Ret", "c": 1, "kind": "Disconnect", "res": derr})
+		case <-time.After(4 * time.Second):
+			info["disconnectStuck"] = true
+		}
 		dcancel()
 		if sc.Opts.SampleAfterMs > 0 {
 			sampleClient(rec, cli, w)
